@@ -169,9 +169,11 @@ func cmdWorker(args []string, sweep bool) {
 	out := fs.String("out", "", "result file (JSON)")
 	tuples := fs.String("tuples", "", "file receiving (expression, document, outcome) tuples for the oracle process")
 	maxOps := fs.Int("maxops", 12, "C06: maximum history length")
+	tupleEvery := fs.Uint64("tuple-every", 1, "record oracle tuples only for runs whose index is a multiple of this")
 	maxYields := fs.Uint64("maxyields", 3_000_000, "watchdog: yields per run")
 	samples := fs.Int("samples", 0, "keep this many sample workloads in the output")
 	digests := fs.String("digests", "", "write one line per run: index, event-log digest (determinism self-check)")
+	noNative := fs.Bool("nonative", false, "C15: leave out Go's own (unpinned) map order, so that event logs are comparable across processes")
 	fs.Parse(args)
 	st := newStats()
 	simrt.TrackPerms = true
@@ -238,7 +240,7 @@ func cmdWorker(args []string, sweep bool) {
 			wo.Workload = ew
 			finish(exitViolation)
 		}
-		if tw != nil {
+		if tw != nil && w.Index%*tupleEvery == 0 {
 			for _, t := range rep.Tuples {
 				tw.WriteString(mustJSON(t))
 				tw.WriteByte('\n')
@@ -254,6 +256,15 @@ func cmdWorker(args []string, sweep bool) {
 	}
 	for idx := *from; idx < *to; idx++ {
 		w := genWorkload(*prop, *seed, idx, *maxOps)
+		if *noNative {
+			var ps []simrt.Policy
+			for _, p := range w.Policies {
+				if p.Kind != simrt.PolNative {
+					ps = append(ps, p)
+				}
+			}
+			w.Policies = ps
+		}
 		if !sweep {
 			one(w)
 			continue
